@@ -14,7 +14,7 @@
 (*                                                                         *)
 (* PART 2  the relation the property states between the list `before` and  *)
 (* the list `after` the pass (operators, used by Trace_HyphenList on the   *)
-(* real lists and by MC_HyphenRel on a model of TeX's reconstitution):     *)
+(* real lists and by MC_HyphenRecon on a transcription of TeX 903-918):    *)
 (*   R1  deleting the inserted discretionaries from `after` gives `before` *)
 (*       node for node;                                                    *)
 (*   R2  every inserted discretionary lies in a tried word, its lists hold *)
@@ -368,27 +368,35 @@ NormStep(ws, B, A, W, P) ==
           THEN Match(ws, B, W)
      \* DevBchar (i): boundary ligatures appended to the rebuilt word
      ELSE IF /\ DevBchar \in D /\ pw # 0 /\ i - 1 = W[pw].hb /\ W[pw].bchar >= 0
-             /\ an.k = "lig" /\ an.o = <<>> /\ an.rb = 1 /\ an.f = W[pw].hf /\ Rebuilt(P, W[pw])
+             /\ an.k = "lig" /\ an.o = <<>> /\ an.f = W[pw].hf /\ Rebuilt(P, W[pw])
+             /\ (an.rb = 1 \/ (DevSyncRb \in D /\ ws.cover >= j /\ an.rb = an.lb))
           THEN [ws EXCEPT !.j = @ + 1]
      \* DevLeft: the head of the word was rebuilt with the left boundary
      ELSE IF /\ DevLeft \in D /\ wd # 0 /\ i = W[wd].first /\ LeftContext(B, W[wd]) /\ Rebuilt(P, W[wd])
           THEN [ws EXCEPT !.mode = "desync", !.w = wd, !.lc = 0, !.lbc = 0]
      ELSE Fail(ws, "node-differs")
 
-\* DevLeft only: the rebuilt head of word w and its original nodes, until both sides meet again
+\* DevLeft only: the rebuilt head of word w and its original nodes, until both sides meet again.
+\* The side that is behind in letters moves; when level, a node without letters moves first.
 DesyncStep(ws, B, A, W, P) ==
   LET i == ws.i
       j == ws.j
       w == W[ws.w]
       inA == j <= Len(A)
       inB == i <= Len(B)
+      okA == inA /\ WordNode(A[j], w.hf) /\ (Letters(A[j]) = <<>> \/ ws.lc < w.hn)
+      okB == inB /\ i <= w.hb
+      takeA == [ws EXCEPT !.j = @ + 1, !.lc = @ + Len(Letters(A[j]))]
+      takeB == [ws EXCEPT !.i = @ + 1, !.lbc = @ + Len(Letters(B[i]))]
   IN IF ws.lc = ws.lbc /\ ((inA /\ inB /\ A[j] = B[i]) \/ (~inA /\ ~inB)) THEN [ws EXCEPT !.mode = "norm"]
      ELSE IF inA /\ A[j].k = "disc" THEN Inserted(ws, A, W, P, ws.w, ws.lc)
-     ELSE IF ws.lc <= ws.lbc
-          THEN IF inA /\ WordNode(A[j], w.hf) THEN [ws EXCEPT !.j = @ + 1, !.lc = @ + Len(Letters(A[j]))]
-               ELSE Fail(ws, "node-differs")
-          ELSE IF inB /\ i <= w.hb THEN [ws EXCEPT !.i = @ + 1, !.lbc = @ + Len(Letters(B[i]))]
-               ELSE Fail(ws, "node-differs")
+     ELSE IF ws.lc < ws.lbc THEN (IF okA THEN takeA ELSE Fail(ws, "node-differs"))
+     ELSE IF ws.lc > ws.lbc THEN (IF okB THEN takeB ELSE Fail(ws, "node-differs"))
+     ELSE IF okA /\ Letters(A[j]) = <<>> THEN takeA
+     ELSE IF okB /\ Letters(B[i]) = <<>> THEN takeB
+     ELSE IF okA THEN takeA
+     ELSE IF okB THEN takeB
+     ELSE Fail(ws, "node-differs")
 
 RECURSIVE Walk(_, _, _, _, _)
 Walk(ws, B, A, W, P) ==
